@@ -186,6 +186,13 @@ func readFilesAsKeys(files []string, basePath string, encryptor keystore.KeyEncr
 func (store *KeyBackuper) Export(exportIDs []keystore.ExportID, mode keystore.ExportMode) (*keystore.KeysBackup, error) {
 	var exportedKeys []*keystore.Key
 	var err error
+	// plaintext private and symmetric keys selected by exportIDs, zeroized when export is finished
+	var secretContents [][]byte
+	defer func() {
+		for _, content := range secretContents {
+			utils.ZeroizeBytes(content)
+		}
+	}()
 
 	if len(exportIDs) != 0 {
 		for _, exportID := range exportIDs {
@@ -215,7 +222,8 @@ func (store *KeyBackuper) Export(exportIDs []keystore.ExportID, mode keystore.Ex
 					return nil, err
 				}
 
-				utils.ZeroizeBytes(keypair.Private.Value)
+				// private key data is zeroized only after it has been serialized
+				secretContents = append(secretContents, keypair.Private.Value)
 				exportedKeys = append(exportedKeys, &keystore.Key{
 					Name:    PoisonKeyFilename,
 					Content: keypair.Private.Value,
@@ -244,7 +252,7 @@ func (store *KeyBackuper) Export(exportIDs []keystore.ExportID, mode keystore.Ex
 					log.WithError(err).Error("Cannot read client storage private key")
 					return nil, err
 				}
-				utils.ZeroizeBytes(key.Value)
+				secretContents = append(secretContents, key.Value)
 				exportedKeys = append(exportedKeys, &keystore.Key{
 					Name:    GetServerDecryptionKeyFilename(exportID.ContextID),
 					Content: key.Value,
@@ -255,7 +263,7 @@ func (store *KeyBackuper) Export(exportIDs []keystore.ExportID, mode keystore.Ex
 					log.WithError(err).Error("Cannot read client symmetric key")
 					return nil, err
 				}
-				utils.ZeroizeBytes(key)
+				secretContents = append(secretContents, key)
 				exportedKeys = append(exportedKeys, &keystore.Key{
 					Name:    getClientIDSymmetricKeyName(exportID.ContextID),
 					Content: key,
@@ -266,7 +274,7 @@ func (store *KeyBackuper) Export(exportIDs []keystore.ExportID, mode keystore.Ex
 					log.WithError(err).Error("Cannot read client symmetric key")
 					return nil, err
 				}
-				utils.ZeroizeBytes(key)
+				secretContents = append(secretContents, key)
 				exportedKeys = append(exportedKeys, &keystore.Key{
 					Name:    getHmacKeyFilename(exportID.ContextID),
 					Content: key,
